@@ -54,7 +54,11 @@ ROUTES = ('ctor', 'set_rules', 'file', 'ctor+own', 'set_rules+own',
           # deprecated rule under an old name nobody defines (its old check
           # names a role nobody holds; old defaults are still honoured),
           # so its own definition is still what the rule set says
-          'reg-renamed')
+          'reg-renamed',
+          # the process holds TWO enforcers on the same policy file; both
+          # have loaded an earlier content, the file is then rewritten and
+          # the OTHER enforcer decides first
+          'file-twin')
 
 
 def bound(tier):
@@ -154,6 +158,16 @@ def build(P, parse_rule, ruleset, cfg, route, w):
                 deprecated_since='s'))
             for n, b in ruleset.items()])
         return enf
+    if route == 'file-twin':
+        w.write('policy.yaml', world.dumps_policy({'earlier': '@'}))
+        conf = world.new_conf(w.root, **overrides)
+        first, second = P.Enforcer(conf, **kw), P.Enforcer(conf, **kw)
+        for e in (first, second):
+            e.enforce('earlier', {}, {'roles': []})
+        w.write('policy.yaml', world.dumps_policy(ruleset))
+        for q in QUERIES:
+            first.enforce(q, {}, {'roles': []})
+        return second
     if route == 'file+late':
         in_file = {k: v for k, v in ruleset.items() if k != 'x'}
         w.write('policy.yaml', world.dumps_policy(in_file))
